@@ -36,10 +36,11 @@ struct Act {
     char kind;   // R traverse, E erase, F/B push_front/back, f/b emplace_front/back, H short handle, K keep handle, W traverse with a write handle
     int arg;     // E: target id (-1 all, -2 first); F/B/f/b: id; R/W: pause index (-1 none); K: number of following actions to keep the handle for
     int pause;   // number of pause points
+    bool via_star = false;  // reach the list through operator* of the handle instead of operator->
 };
 inline std::string act_json(const Act& a)
 {
-    return std::string("{\"k\":\"") + a.kind + "\",\"a\":" + std::to_string(a.arg) + ",\"p\":" + std::to_string(a.pause) + "}";
+    return std::string("{\"k\":\"") + a.kind + "\",\"a\":" + std::to_string(a.arg) + ",\"p\":" + std::to_string(a.pause) + (a.via_star ? ",\"via\":\"*\"" : "") + "}";
 }
 
 struct Traversal {
@@ -94,7 +95,7 @@ struct Fixture {
         tv.write_handle = write_handle;
         tv.complete = false;
         tv.call = vrf::now();
-        auto it = h->begin();
+        auto it = a.via_star ? (*h).begin() : h->begin();
         live_handles.fetch_add(1, std::memory_order_relaxed);
         handles_taken.fetch_add(1, std::memory_order_relaxed);
         int idx = 0;
@@ -139,14 +140,16 @@ struct Fixture {
                 }
                 case 'H': {
                     RH h(g->lock_read());
-                    (void)h->begin();
+                    if (a.via_star) (void)(*h).begin();
+                    else (void)h->begin();
                     handles_taken.fetch_add(1, std::memory_order_relaxed);
                     vrf::user_point();
                     break;
                 }
                 case 'K': {
                     kept.reset(new RH(g->lock_read()));
-                    (void)(*kept)->begin();
+                    if (a.via_star) (void)(**kept).begin();
+                    else (void)(*kept)->begin();
                     live_handles.fetch_add(1, std::memory_order_relaxed);
                     handles_taken.fetch_add(1, std::memory_order_relaxed);
                     keep_for = a.arg + 1;
@@ -167,7 +170,7 @@ struct Fixture {
                 }
                 case 'E': {
                     WH h(g->lock_write());
-                    auto it = h->begin();
+                    auto it = a.via_star ? (*h).begin() : h->begin();
                     live_handles.fetch_add(1, std::memory_order_relaxed);
                     handles_taken.fetch_add(1, std::memory_order_relaxed);
                     while (it != h->end()) {
@@ -268,6 +271,8 @@ inline Program gen_program(vrf::Rng& rng, uint32_t first_new_id, bool big = fals
                 sc.push_back(Act{'K', static_cast<int>(rng.range(0, 2)), 0});
             }
         }
+        for (auto& a : sc)
+            if (a.kind == 'R' || a.kind == 'W' || a.kind == 'H' || a.kind == 'K' || a.kind == 'E') a.via_star = rng.chance(35);
         p.scripts.push_back(std::move(sc));
     }
     if (!have_eraser) p.scripts[0].push_back(Act{'E', p.initial > 0 ? static_cast<int>(rng.range(1, p.initial)) : -2, 1});
